@@ -52,6 +52,7 @@ type cell struct {
 	Src      string   `json:"src"`
 	Uses     []string `json:"uses"`
 	Module   bool     `json:"module"`
+	Tempts   string   `json:"tempts"` // minifier bait: the feature the minifier is tempted to introduce
 }
 
 type allow struct {
@@ -466,6 +467,9 @@ func Run(r *core.Run) {
 		stages := h.Stages
 		if !r.Thorough() {
 			y := h.Years[c.Feature]
+			if c.Tempts != "" {
+				y = h.Years[c.Tempts]
+			}
 			pick := map[string]bool{"es2015": true, "esnext": true}
 			if y <= 2024 {
 				pick["es"+strconv.Itoa(y)] = true
@@ -483,8 +487,20 @@ func Run(r *core.Run) {
 			}
 			stages = []stage{h.Stages[r.Rand.Intn(2)], h.Stages[2+r.Rand.Intn(3)], h.Stages[5+r.Rand.Intn(len(h.Stages)-5)]}
 		}
+		if c.Tempts != "" { // minifier bait: only the minifying stages matter
+			stages = nil
+			for _, st := range h.Stages {
+				if st.Minify {
+					stages = append(stages, st)
+				}
+			}
+		}
 		ovs := []string{"none"}
-		for _, u := range c.Uses {
+		relevant := c.Uses
+		if c.Tempts != "" {
+			relevant = append(append([]string{}, c.Uses...), c.Tempts)
+		}
+		for _, u := range relevant {
 			if contains(h.Overridable, u) {
 				ovs = append(ovs, u+"=true", u+"=false")
 			}
@@ -502,7 +518,7 @@ func Run(r *core.Run) {
 					continue
 				}
 				nt := false
-				for _, u := range c.Uses {
+				for _, u := range relevant {
 					if !a.set[u] {
 						nt = true
 					}
@@ -683,7 +699,7 @@ func Run(r *core.Run) {
 	r.Set("forced_on_checked", passedThrough)
 	r.Set("pass_through_with_warning", warnedPass)
 	r.Set("nontrivial_by_feature", perFeature)
-	r.Set("rule", "case = one matrix cell: (feature, position) cell of spec/Lowering.tla x target year or engine list x supported override (none / each used feature on / off) x stage (transform|bundle x format x minify); quick samples targets (es2015, the feature's year and the year before, esnext, one random year, one engine list) and 3 stages per cell, thorough takes all; non-trivial = the input uses a feature that is not in AllowedSyntax(target, override)")
+	r.Set("rule", "case = one matrix cell: (feature, position) cell of spec/Lowering.tla x target year or engine list x supported override (none / each used feature on / off) x stage (transform|bundle x format x minify); quick samples targets (es2015, the feature's year and the year before, esnext, one random year, one engine list) and 3 stages per cell, thorough takes all; non-trivial = the input uses a feature that is not in AllowedSyntax(target, override) (minifier-bait cells: the feature the minifier is tempted to introduce is not allowed)")
 }
 
 func init() { core.Register("C14", Run) }
